@@ -218,12 +218,21 @@ def maybe_dict_case(rng):
     keys = sorted({rng.getrandbits(n) for _ in range(rng.choice([0, 1, 3, 9]))})
     for k in keys:
         h.set_int_key(k, k % 4096)
-    c = Builder().store_dict(h.serialize()).store_uint(5, 3).end_cell()
+    # 0..2 plain references are stored (and consumed) before the optional dictionary: the peek must look at the
+    # CURRENT reference, not at the first one of the cell
+    lead = rng.choice([0, 0, 1, 2])
+    b = Builder()
+    for j in range(lead):
+        b.store_ref(Builder().store_uint(j, 8).end_cell())
+    c = b.store_dict(h.serialize()).store_uint(5, 3).end_cell()
     s = c.begin_parse()
+    for j in range(lead):
+        if s.load_ref().begin_parse().load_uint(8) != j:
+            return "leading reference read back wrongly"
     pre = s.preload_dict(n, value_deserializer=lambda v: v.load_uint(12))
     got = s.load_dict(n, value_deserializer=lambda v: v.load_uint(12))
     if not keys:
-        ok = got is None and pre is None and len(c.bits) == 4 and not c.refs
+        ok = got is None and pre is None and len(c.bits) == 4 and len(c.refs) == lead
     else:
         ok = got == {k: k % 4096 for k in keys} and list(got) == keys and pre == got
     if not ok or s.load_uint(3) != 5:
